@@ -51,6 +51,7 @@ Inductive event :=
 | EvLost (c : N)                                       (* dropped with a dead worker's queue *)
 | EvReleased (c : N)                                   (* guard dropped (connection finished/torn down) *)
 | EvReady (toks : list nat) (waker : bool)             (* what poll returned in a Turn *)
+| EvKilled (g : nat)                                   (* ghost: worker generation g died (Kill) *)
 | EvPauseOn                                            (* ghost: a Pause took effect (paused false -> true) *)
 | EvPauseOff                                           (* ghost: a Resume took effect (paused true -> false) *)
 | EvExit.                                              (* accept loop exits (Stop) *)
@@ -216,7 +217,7 @@ Definition env_step (st : state) (o : eop) : state :=
   | Kill g =>
       match nth_error (ws st) g with
       | Some w => if w_open w then
-                    let st1 := upd_worker st g (set_w_open (set_w_queue w []) false) in
+                    let st1 := emit (upd_worker st g (set_w_open (set_w_queue w []) false)) (EvKilled g) in
                     fold_left (fun s c => emit s (EvLost (c_id c))) (w_queue w) st1
                   else st
       | None => st
